@@ -108,7 +108,8 @@ example : (runStep (wEnv outDep) (exec (wEnv outDep) wWorld wOps) false).written
     the current header from `module_meta_factory(module_path.path)` and `transpiler.meta` and answers `new_meta != old_meta`;
     `__eq__` compares the identities, the identity is the md5 of `to_json()`, `to_json` serialises version / module /
     transpiler with the compact separators, `from_json` hands over the same keys, the factory looks the module up by `index`
-    and records `sources.hash(filepath)` and the path; the tag, the TypedDict fields and `Config.force` are the model's.
+    and records `sources.hash(filepath)` and the path; the tag, the TypedDict fields and `Config.force` are the model's; `Writer` keeps one
+    buffer (`put` appends) and `_flush` replaces the file as a whole (`open(filepath, mode='wb')` truncates: `World.write`).
     (A change of any of these source shapes changes the generated table and fails this theorem.) -/
 theorem generated_shapes :
     Generated.RunnerHeader.canTranspile =
@@ -147,7 +148,15 @@ theorem generated_shapes :
       [['t', 'a', 'r', 'g', 'e', 't', '_', 'p', 'a', 't', 'h', 's', ' ', '=', ' ', 's', 'e', 'l', 'f', '.', 'm', 'o', 'd', 'u', 'l', 'e', '_', 'p', 'a', 't', 'h', 's', ' ', 'i', 'f', ' ', 's', 'e', 'l', 'f', '.', 'c', 'o', 'n', 'f', 'i', 'g', '.', 'f', 'o', 'r', 'c', 'e', ' ', 'e', 'l', 's', 'e', ' ', '[', 'm', 'o', 'd', 'u', 'l', 'e', '_', 'p', 'a', 't', 'h', ' ', 'f', 'o', 'r', ' ', 'm', 'o', 'd', 'u', 'l', 'e', '_', 'p', 'a', 't', 'h', ' ', 'i', 'n', ' ', 's', 'e', 'l', 'f', '.', 'm', 'o', 'd', 'u', 'l', 'e', '_', 'p', 'a', 't', 'h', 's', ' ', 'i', 'f', ' ', 's', 'e', 'l', 'f', '.', 'c', 'a', 'n', '_', 't', 'r', 'a', 'n', 's', 'p', 'i', 'l', 'e', '(', 'm', 'o', 'd', 'u', 'l', 'e', '_', 'p', 'a', 't', 'h', ')', ']'],
        ['f', 'o', 'r', ' ', 'm', 'o', 'd', 'u', 'l', 'e', '_', 'p', 'a', 't', 'h', ' ', 'i', 'n', ' ', 't', 'a', 'r', 'g', 'e', 't', '_', 'p', 'a', 't', 'h', 's', ':'], ['c', 'o', 'n', 't', 'e', 'n', 't', ' ', '=', ' ', 's', 'e', 'l', 'f', '.', 't', 'r', 'a', 'n', 's', 'p', 'i', 'l', 'e', 'r', '.', 't', 'r', 'a', 'n', 's', 'p', 'i', 'l', 'e', '(', 's', 'e', 'l', 'f', '.', 'b', 'y', '_', 'e', 'n', 't', 'r', 'y', 'p', 'o', 'i', 'n', 't', '(', 'm', 'o', 'd', 'u', 'l', 'e', '_', 'p', 'a', 't', 'h', ')', ')'],
        ['w', 'r', 'i', 't', 'e', 'r', ' ', '=', ' ', 'W', 'r', 'i', 't', 'e', 'r', '(', 's', 'e', 'l', 'f', '.', 'o', 'u', 't', 'p', 'u', 't', '_', 'f', 'i', 'l', 'e', 'p', 'a', 't', 'h', '(', 'm', 'o', 'd', 'u', 'l', 'e', '_', 'p', 'a', 't', 'h', ')', ')'], ['w', 'r', 'i', 't', 'e', 'r', '.', 'p', 'u', 't', '(', 'c', 'o', 'n', 't', 'e', 'n', 't', ')'], ['w', 'r', 'i', 't', 'e', 'r', '.', 'f', 'l', 'u', 's', 'h', '(', ')'], ['e', 'n', 'd']] ∧
-    Generated.RunnerHeader.configForce = ['s', 'e', 'l', 'f', '.', 'f', 'o', 'r', 'c', 'e', ' ', '=', ' ', 'a', 'r', 'g', 's', '.', 'f', 'o', 'r', 'c', 'e', ' ', 'o', 'r', ' ', 'c', 'o', 'n', 'f', 'i', 'g', '.', 'g', 'e', 't', '(', '\'', 'f', 'o', 'r', 'c', 'e', '\'', ',', ' ', 'F', 'a', 'l', 's', 'e', ')'] := by
+    Generated.RunnerHeader.configForce = ['s', 'e', 'l', 'f', '.', 'f', 'o', 'r', 'c', 'e', ' ', '=', ' ', 'a', 'r', 'g', 's', '.', 'f', 'o', 'r', 'c', 'e', ' ', 'o', 'r', ' ', 'c', 'o', 'n', 'f', 'i', 'g', '.', 'g', 'e', 't', '(', '\'', 'f', 'o', 'r', 'c', 'e', '\'', ',', ' ', 'F', 'a', 'l', 's', 'e', ')'] ∧
+    Generated.RunnerHeader.writerInit =
+      [['s', 'e', 'l', 'f', '.', '_', '_', 'f', 'i', 'l', 'e', 'p', 'a', 't', 'h', ' ', '=', ' ', 'f', 'i', 'l', 'e', 'p', 'a', 't', 'h'], ['s', 'e', 'l', 'f', '.', '_', '_', 'c', 'o', 'n', 't', 'e', 'n', 't', ' ', '=', ' ', '\'', '\'']] ∧
+    Generated.RunnerHeader.writerPut =
+      [['s', 'e', 'l', 'f', '.', '_', '_', 'c', 'o', 'n', 't', 'e', 'n', 't', ' ', '+', '=', ' ', 't', 'e', 'x', 't']] ∧
+    Generated.RunnerHeader.writerFlush =
+      [['a', 'b', 's', '_', 'f', 'i', 'l', 'e', 'p', 'a', 't', 'h', ' ', '=', ' ', 'o', 's', '.', 'p', 'a', 't', 'h', '.', 'a', 'b', 's', 'p', 'a', 't', 'h', '(', 's', 'e', 'l', 'f', '.', '_', '_', 'f', 'i', 'l', 'e', 'p', 'a', 't', 'h', ')'], ['d', 'i', 'r', 'p', 'a', 't', 'h', ' ', '=', ' ', 'o', 's', '.', 'p', 'a', 't', 'h', '.', 'd', 'i', 'r', 'n', 'a', 'm', 'e', '(', 'a', 'b', 's', '_', 'f', 'i', 'l', 'e', 'p', 'a', 't', 'h', ')'], ['i', 'f', ' ', 'n', 'o', 't', ' ', 'o', 's', '.', 'p', 'a', 't', 'h', '.', 'e', 'x', 'i', 's', 't', 's', '(', 'd', 'i', 'r', 'p', 'a', 't', 'h', ')', ':'], ['o', 's', '.', 'm', 'a', 'k', 'e', 'd', 'i', 'r', 's', '(', 'd', 'i', 'r', 'p', 'a', 't', 'h', ')'], ['e', 'n', 'd'], ['t', 'r', 'y', ':'], ['s', 'e', 'l', 'f', '.', '_', 'f', 'l', 'u', 's', 'h', '(', 'a', 'b', 's', '_', 'f', 'i', 'l', 'e', 'p', 'a', 't', 'h', ')'], ['e', 'x', 'c', 'e', 'p', 't', ' ', 'P', 'e', 'r', 'm', 'i', 's', 's', 'i', 'o', 'n', 'E', 'r', 'r', 'o', 'r', ':'], ['t', 'i', 'm', 'e', '.', 's', 'l', 'e', 'e', 'p', '(', '0', '.', '1', ')'], ['s', 'e', 'l', 'f', '.', '_', 'f', 'l', 'u', 's', 'h', '(', 'a', 'b', 's', '_', 'f', 'i', 'l', 'e', 'p', 'a', 't', 'h', ')'], ['e', 'n', 'd']] ∧
+    Generated.RunnerHeader.writerFlushImpl =
+      [['w', 'i', 't', 'h', ' ', 'o', 'p', 'e', 'n', '(', 'f', 'i', 'l', 'e', 'p', 'a', 't', 'h', ',', ' ', 'm', 'o', 'd', 'e', '=', '\'', 'w', 'b', '\'', ')', ' ', 'a', 's', ' ', 'f', ':'], ['f', '.', 'w', 'r', 'i', 't', 'e', '(', 's', 'e', 'l', 'f', '.', '_', '_', 'c', 'o', 'n', 't', 'e', 'n', 't', '.', 'e', 'n', 'c', 'o', 'd', 'e', '(', '\'', 'u', 't', 'f', '-', '8', '\'', ')', ')'], ['e', 'n', 'd']] := by
   decide +kernel
 
 example : Generated.RunnerHeader.currentInputs.map (·.2) =
